@@ -11,6 +11,8 @@ import Rv.Model.ClusterRoute
 import Rv.Spec.Cluster
 import Rv.Lemmas.ClusterParse
 import Rv.Lemmas.ClusterRoute
+import Rv.Lemmas.ClusterMultiSent
+import Rv.Lemmas.ClusterMultiCover
 namespace Rv.C19
 open Rv Rv.Topology Rv.ClusterRoute Rv.ClusterParse Rv.ClusterRouteL
 
@@ -256,6 +258,62 @@ theorem redirect_bound_returns_error (o : Opt) (cache : Bool) (cmd : Cmd) (cc : 
 
 /-- with `MaxMovedRedirections = 0` there is no bound: a redirect is always followed -/
 example : ¬ ((0 : Nat) > 0 ∧ 5 + 1 > 0) := by omega
+
+/-! ## redirects inside a batch round (`doretry`) -/
+section batch
+open Rv.ClusterMulti Rv.ClusterMultiL
+
+/-- Both lists of a per-connection retry entry are sent: a round that starts with the pending map `p` puts on
+    the wire, for every entry `(cc, re)` of `p`, one call on `cc` with the plain re-sends `re.cmds` (MOVED /
+    retried commands) if there are any **and** one call with the ASK re-sends `re.asks` behind their ASKING if
+    there are any — the second is not skipped when the first exists (one command answered MOVED→X and another
+    ASK→X in the same round). Every command of `re.cmds ++ re.asks` is an item of a call on `cc`. -/
+theorem retry_entry_both_lists_sent (o : Opt) (cache hasInit : Bool) (fuel : Nat) (p : Pending) (a : Acc) (w : World)
+    (attempts redirects : Nat) (cc : Conn) (re : Retry) (hx : (cc, re) ∈ p) :
+    (re.cmds ≠ [] → cmdsCall cache cc re ∈ (rounds o cache hasInit (fuel + 1) p a w attempts redirects).2.log) ∧
+    (re.asks ≠ [] → asksCall cache cc re ∈ (rounds o cache hasInit (fuel + 1) p a w attempts redirects).2.log) ∧
+    (∀ e ∈ re.cmds ++ re.asks, ∃ call ∈ (rounds o cache hasInit (fuel + 1) p a w attempts redirects).2.log,
+        call.conn = cc ∧ Item.cmd e.2.id ∈ call.items) := by
+  -- the log of the whole run extends the log of its first round
+  have hfirst : ∃ tail, (rounds o cache hasInit (fuel + 1) p a w attempts redirects).2.log =
+      (w.log ++ (sortP p).flatMap fun x => sentBy cache x.1 x.2) ++ tail := by
+    have hl := runRound_log o cache hasInit attempts (sortP p) { a with next := [], redirects := 0, hasDelay := false } w
+    unfold rounds
+    simp only
+    split
+    · split
+      · split
+        · exact ⟨[], by rw [hl]; simp⟩
+        · obtain ⟨t, ht⟩ := rounds_log_prefix o cache hasInit fuel _ _
+            (runRound o cache hasInit attempts (sortP p) { a with next := [], redirects := 0, hasDelay := false } w).2 attempts (redirects + 1)
+          exact ⟨t, by rw [ht, hl]⟩
+      · split
+        · obtain ⟨t, ht⟩ := rounds_log_prefix o cache hasInit fuel _ _
+            (runRound o cache hasInit attempts (sortP p) { a with next := [], redirects := 0, hasDelay := false } w).2 (attempts + 1) redirects
+          exact ⟨t, by rw [ht, hl]⟩
+        · exact ⟨[], by rw [hl]; simp⟩
+    · exact ⟨[], by rw [hl]; simp⟩
+  obtain ⟨tail, ht⟩ := hfirst
+  have hin : ∀ call ∈ sentBy cache cc re, call ∈ (rounds o cache hasInit (fuel + 1) p a w attempts redirects).2.log := by
+    intro call hc
+    rw [ht]
+    apply List.mem_append_left
+    apply List.mem_append_right
+    exact List.mem_flatMap.mpr ⟨(cc, re), mem_sortP' p (cc, re) hx, hc⟩
+  refine ⟨fun h => hin _ ?_, fun h => hin _ ?_, fun e he => ?_⟩
+  · unfold sentBy; rw [if_pos h]; exact List.mem_append_left _ (List.mem_singleton.mpr rfl)
+  · unfold sentBy; rw [if_pos h]; exact List.mem_append_right _ (List.mem_singleton.mpr rfl)
+  · obtain ⟨call, hc, h1, h2⟩ := sentBy_covers cache cc re e he
+    exact ⟨call, hin call hc, h1, h2⟩
+
+/-- the ASK call of an entry is the ASKING-interleaved list: stripping ASKING gives the entry's ASK commands in
+    order (so the i-th kept reply is the i-th command's), and a lone command has its ASKING directly in front -/
+theorem retry_entry_asks_behind_asking (cc : Conn) (re : Retry) :
+    (asksCall false cc re).conn = cc ∧ (asksCall false cc re).kind = .multi ∧
+    (asksCall false cc re).items.filter (fun it => !decide (it = Item.asking)) = re.asks.map fun e => Item.cmd e.2.id :=
+  ⟨rfl, rfl, askingItems_strip re.asks false⟩
+
+end batch
 
 /-! ## single flight -/
 open SF
